@@ -12,7 +12,7 @@
    pending events in the order the event set (CQueue.Spec, C01) returns them. *)
 From Coq Require Import List NArith Permutation.
 From DesVerif Require Import CQueue.Model CQueue.Spec Channel.Model Channel.Queue Channel.Trace Channel.Core
-  Channel.Account Channel.Timing Channel.Props Channel.Term Channel.Order.
+  Channel.Account Channel.Timing Channel.Props Channel.Term Channel.Order Channel.Multi Channel.Project Channel.Links.
 Import ListNotations.
 Open Scope N_scope.
 
@@ -41,8 +41,8 @@ Print Assumptions C07_account_none_twice.
    delivered or dropped exactly once *)
 Theorem C07_run_completes : forall tx mt oracle offs,
   let bs := group offs 0 in
-  let s := steps current tx mt bs (fuel_for offs) (init bs oracle) in
-  step current tx mt bs s = None /\ pend (q s) = [] /\ busy (ch s) = false /\ buffer (ch s) = [] /\
+  let s := steps current enc_ev tx mt bs (fuel_for offs) (init enc_ev bs oracle) in
+  step current enc_ev tx mt bs s = None /\ pend (q s) = [] /\ busy (ch s) = false /\ buffer (ch s) = [] /\
   Permutation (ids_from 0 (length offs)) (delivered (log s) ++ dropped_busy (log s) ++ dropped_full (log s)) /\
   NoDup (delivered (log s) ++ dropped_busy (log s) ++ dropped_full (log s)).
 Proof. exact run_completes. Qed.
@@ -118,7 +118,7 @@ Print Assumptions C07_fifo_order.
    accepted offers, in offer order; then come the messages in flight (in the order the event set
    will return them), then the queue *)
 Theorem C07_zero_jitter_preserves_order : forall tx mt bursts, m_jit mt = 0 -> forall oracle n,
-  let s := steps current tx mt bursts n (init bursts oracle) in
+  let s := steps current enc_ev tx mt bursts n (init enc_ev bursts oracle) in
   rev (accepted (log s)) = rev (delivered (log s)) ++ exits (pend (q s)) ++ map fst (buffer (ch s)).
 Proof. exact zero_jitter_preserves_order. Qed.
 Print Assumptions C07_zero_jitter_preserves_order.
@@ -137,12 +137,57 @@ Theorem C07_queue_limit : forall tx mt bursts oracle n,
 Proof. exact queue_limit. Qed.
 Print Assumptions C07_queue_limit.
 
+(* ---- several channel instances on one event set (coq/Channel/Multi.v): both directions of a link,
+   several links built from one template handle, links connected at run time.
+   [mreach tx mt mbursts template oracles n] is the state after n events; a burst may send into
+   several channels; [plog c] is channel c's part of the shared log, [pbursts mbursts c] channel
+   c's part of the script, [own_run ... c k] the single-channel run on that part. ---- *)
+
+(* links_independent: channel c of a multi-channel run -- its record, its remaining jitter samples,
+   its part of the log -- is a state of the single-channel run on c's own part of the script.  That run
+   mentions no other channel: what is offered to other channels, and their states, have no influence. *)
+Theorem C07_links_independent : forall tx mt mbursts template oracles c n,
+  c < NCH ->
+  exists k, chs (mreach tx mt mbursts template oracles n) c = ch (own_run tx mt mbursts oracles c k) /\
+            orcs (mreach tx mt mbursts template oracles n) c = orc (own_run tx mt mbursts oracles c k) /\
+            plog c (mlog (mreach tx mt mbursts template oracles n)) = log (own_run tx mt mbursts oracles c k).
+Proof. exact links_independent. Qed.
+Print Assumptions C07_links_independent.
+
+(* hence every invariant of the single-channel model holds of every channel of a multi-channel run *)
+Theorem C07_multi_transfer : forall tx mt mbursts template oracles (P : chan -> list item -> Prop) c n,
+  c < NCH ->
+  (forall k, P (ch (own_run tx mt mbursts oracles c k)) (log (own_run tx mt mbursts oracles c k))) ->
+  P (chs (mreach tx mt mbursts template oracles n) c) (plog c (mlog (mreach tx mt mbursts template oracles n))).
+Proof. exact multi_transfer. Qed.
+Print Assumptions C07_multi_transfer.
+
+(* for instance: busy span, FIFO start, queue limit, no message stuck -- per channel *)
+Theorem C07_multi_channel_wf : forall tx mt mbursts template oracles c n,
+  c < NCH ->
+  let l := plog c (mlog (mreach tx mt mbursts template oracles n)) in
+  let r := chs (mreach tx mt mbursts template oracles n) c in
+  wf_log tx mt l /\ cur_of tx l = (if busy r then Some (finish r) else None) /\ queue_of l = buffer r /\
+  acc r = qsum (buffer r) /\ (busy r = false -> buffer r = []).
+Proof. exact multi_channel_wf. Qed.
+Print Assumptions C07_multi_channel_wf.
+
+(* a new instance (Channel::dup) starts idle with an empty queue whatever state its template is in --
+   also when the template is the live channel of a link that is transmitting at that moment *)
+Theorem C07_new_instance_starts_idle : forall template, dup template = idle_chan.
+Proof. exact dup_fresh. Qed.
+Print Assumptions C07_new_instance_starts_idle.
+
+Theorem C07_template_state_irrelevant : forall bs t1 t2 oracles, minit bs t1 oracles = minit bs t2 oracles.
+Proof. exact minit_template_irrelevant. Qed.
+Print Assumptions C07_template_state_irrelevant.
+
 (* ---- non-vacuity: a script that queues, drains two zero-time messages in one Unbusy, drops on a
    full queue and delivers in order (2 Tbit/s: 64 B -> 0 ns, 1088 B -> 4 ns; latency 0) ---- *)
 Definition ex_tx (len : N) : N := if len =? 64 then 0 else 4.
 Definition ex_mt : metrics := {| m_lat := 0; m_jit := 0; m_pol := PQueue (Some 128) |}.
 Definition ex_offs : list (N * N) := [(0, 1088); (0, 64); (0, 64); (0, 64); (4, 1088)].
-Definition ex_final : st := steps current ex_tx ex_mt (group ex_offs 0) (fuel_for ex_offs) (init (group ex_offs 0) []).
+Definition ex_final : st := steps current enc_ev ex_tx ex_mt (group ex_offs 0) (fuel_for ex_offs) (init enc_ev (group ex_offs 0) []).
 
 Example C07_example_fates :
   rev (delivered (log ex_final)) = [0; 1; 2] /\ dropped_full (log ex_final) = [4; 3] /\
@@ -152,4 +197,18 @@ Proof. vm_compute. repeat split. Qed.
 Example C07_example_dequeues :
   In (IUnbusy 4) (log ex_final) /\ In (IStart 1 64 4 0 true) (log ex_final) /\ In (IStart 2 64 4 0 true) (log ex_final) /\
   In (IDeliver 0 4) (log ex_final) /\ In (IDeliver 2 4) (log ex_final) /\ In (IDropFull 4 1088 4) (log ex_final).
+Proof. vm_compute. intuition. Qed.
+
+(* both directions of a link busy at once, and the reverse directions of two links built from one
+   handle busy at once (8 kbit/s: 64 B = 64 ms; latency 100 ms; Drop): nothing is dropped *)
+Definition ex_mb : list (N * list (N * N * N)) :=
+  [(0, [(0, 0, 64)]); (10000000, [(1, 1, 64); (3, 2, 64)])].
+Definition ex_mfinal : mst :=
+  msteps own_instance (fun _ => 64000000) {| m_lat := 100000000; m_jit := 0; m_pol := PDrop |} ex_mb 20
+    (minit ex_mb (fun _ => idle_chan) (fun _ => [])).
+
+Example C07_example_links :
+  rev (delivered (plog 0 (mlog ex_mfinal))) = [0] /\ rev (delivered (plog 1 (mlog ex_mfinal))) = [1] /\
+  rev (delivered (plog 3 (mlog ex_mfinal))) = [2] /\ In (IStart 1 64 10000000 0 false) (plog 1 (mlog ex_mfinal)) /\
+  In (IStart 2 64 10000000 0 false) (plog 3 (mlog ex_mfinal)) /\ pend (mq ex_mfinal) = [].
 Proof. vm_compute. intuition. Qed.
